@@ -612,7 +612,7 @@ func ruleC04Assembled(p *Program, r *Run) {
 							n++
 							okv := isBuilderString(v.Rhs[i])
 							if rs, isRange := p.Parent(p.Parent(v)).(*ast.RangeStmt); isRange && rs.Value != nil && objOf(info, v.Rhs[i]) == objOf(info, rs.Value) {
-								if f := selField(info, rs.X); f != nil && f.Name() == "Parameters" {
+								if p.allDefsAre(rs.X, func(x ast.Expr) bool { f := selField(info, x); return f != nil && f.Name() == "Parameters" }) {
 									okv = true // caller-supplied parameter, inserted verbatim by contract
 								}
 							}
